@@ -92,6 +92,94 @@ pub fn eval(op: &str, args: &[V]) -> Option<Vec<V>> {
     }
 }
 
+/// Seeds whose FIRST xoshiro256** output is extreme.  `Xoshiro256StarStar::new(seed)` takes its state
+/// word 1 from the second SplitMix64 output and the first output is `rotl(s1 * 5, 7) * 9`; both maps
+/// are bijections of u64, so for every target `T` there is exactly one seed (computed offline by
+/// inverting them; the driver's bit-exact model re-derives the draw, tag `draw1-extreme`).
+/// Worker `k` of the map generators uses `seed + k`, so `seed - k` puts the draw at worker k's first pair.
+pub const EXTREME_SEEDS: [(&str, u64); 15] = [
+    ("first draw 0", 0xC391_0C8D_016B_07D6),                      // next_f64 = 0.0, next_bool = false
+    ("first draw 1<<52 (low 52 bits 0)", 0xFAD5_AE5C_F52B_015E),  // next_f64 = 0.0
+    ("first draw u64::MAX", 0x1B22_4C3D_76E7_78F7),               // next() % u at the top of the range
+    ("first draw 2^52-1 (low 52 bits 1)", 0xA661_6825_AA13_BC2B), // next_f64 = 1 - 2^-52
+    ("first draw 2^63-1", 0x4CB4_E628_7346_FE71),                 // low 52 bits all ones
+    ("first draw = 0.5", 0xB804_F560_188B_7C41),
+    ("first draw = 0.25", 0xAB12_A4FE_E7FD_FF1D),
+    ("first draw = 0.75", 0xEC42_57B8_1075_9DA2),
+    ("first draw = 2^-52", 0xF1F6_B651_1135_3E2B),
+    ("first draw u64::MAX-1", 0x4497_F5B0_734F_0C37),
+    ("first draw = 0.5 - 2^-52", 0x5D06_CCEE_D9CF_256C),
+    ("first draw = 0.5 + 2^-52", 0x8D9C_C106_C13C_358D),
+    ("first draw = 0.125", 0xDE95_EE8B_C7DC_C460),
+    ("first draw 0x9010…0 (low 52 bits 0)", 0x8CA3_59AB_84BB_81ED),
+    ("first draw 0x3C5F…F (low 52 bits 1)", 6_709_543_763_653_945_707),
+];
+
+/// `p` values that a `next_f64()` of the table equals exactly, or whose `1 - p` it equals.
+const DYADIC_P: [f64; 8] = [1.0, 0.0, 0.5, 0.25, 0.75, 0.125, 0.875, 1.0 - 1.0 / 4503599627370496.0];
+
+/// Extreme-draw seeds x tiny orders x all generators x all representations (cheap: orders 2..=9).
+/// `ps`: how many entries of `DYADIC_P` are used; `offsets`: workers 1..=offsets also get the draw.
+fn gen_extreme(emit: &mut dyn FnMut(String), orders: &[usize], ps: usize, offsets: u64) {
+    for (_, seed) in EXTREME_SEEDS {
+        emit(format!("rand_f64 {seed} 4"));
+        emit(format!("rand_u64 {seed} 4"));
+        for &n in orders {
+            for repr in graphs::UNWEIGHTED {
+                emit(format!("rand_rrt {repr} {n} {seed}"));
+                emit(format!("rand_tournament {repr} {n} {seed}"));
+                for p in &DYADIC_P[..ps] {
+                    emit(er_line(repr, n, *p, seed));
+                }
+            }
+        }
+        // worker k of the map generators draws from `seed + k`: put the extreme draw there
+        // (order 3 = one row per worker under masks 3 and 16)
+        for k in 1..=offsets {
+            let s = seed.wrapping_sub(k);
+            let n = orders.last().copied().unwrap_or(2) + 1;
+            emit(format!("rand_tournament am {n} {s}"));
+            for p in &DYADIC_P[..ps] {
+                emit(er_line("am", n, *p, s));
+            }
+        }
+    }
+}
+
+/// Seeds next to `u64::MAX`: `seed + thread_id` wraps for the workers after the first few.
+fn gen_wrap_seeds(emit: &mut dyn FnMut(String), orders: &[usize]) {
+    for k in 0..=16u64 {
+        let seed = u64::MAX - k;
+        for &n in orders {
+            emit(format!("rand_tournament am {n} {seed}"));
+            emit(er_line("am", n, 0.3, seed));
+            emit(er_line("am", n, 0.8125, seed));
+        }
+    }
+}
+
+/// Out-of-distribution stream for the failing-input search (most promising first, ~40 s budget).
+fn gen_stress(rng: &mut Rng, emit: &mut dyn FnMut(String)) {
+    gen_extreme(emit, &[3, 6], 8, 3);
+    gen_wrap_seeds(emit, &[16, 17, 32, 48, 130]);
+    // thresholds in the row/worker split that only large orders reach (256 rows per worker, …):
+    // the tournament model is not run above order 300 (driver: oracle only)
+    for n in [770usize, 1030, 513] {
+        emit(format!("rand_tournament am {n} {}", rng.next()));
+    }
+    for n in [770usize, 1030] {
+        emit(er_line("am", n, 2.0 / n as f64, rng.next()));
+    }
+    emit(er_line("am", 770, 1.0 - 2.0 / 770.0, rng.next()));
+    for repr in graphs::UNWEIGHTED {
+        emit(format!("rand_rrt {repr} 770 {}", rng.next()));
+    }
+    for repr in ["al", "mx"] {
+        emit(format!("rand_tournament {repr} 363 {}", rng.next()));
+        emit(er_line(repr, 363, 0.01, rng.next()));
+    }
+}
+
 fn gen_seed(rng: &mut Rng) -> u64 {
     match rng.below(12) {
         0 => 0,
@@ -150,6 +238,14 @@ fn er_line(repr: &str, n: usize, p: f64, seed: u64) -> String {
 
 pub fn gen(rng: &mut Rng, thorough: bool, emit: &mut dyn FnMut(String)) {
     let reprs = graphs::UNWEIGHTED;
+    if crate::stress() {
+        // search mode: only the out-of-distribution stream (the regular streams ran already)
+        gen_stress(rng, emit);
+        return;
+    }
+    // (0) extreme-draw seeds and wrapping worker seeds: part of every tier
+    gen_extreme(emit, if thorough { &[2, 5] } else { &[2] }, if thorough { 8 } else { 5 }, if thorough { 3 } else { 1 });
+    gen_wrap_seeds(emit, if thorough { &[16, 20, 32, 48] } else { &[20] });
     // (1) exhaustive small scope: every order 1..=6 x 3 fixed seeds x every repr, all three generators
     let small_max = if thorough { 9 } else { 5 };
     for n in 1..=small_max {
@@ -193,7 +289,7 @@ pub fn gen(rng: &mut Rng, thorough: bool, emit: &mut dyn FnMut(String)) {
     // (3) extra weight on the threaded map variants (orders around / above the thread counts)
     // orders whose split over 3 / 16 workers has a short last chunk or spawns fewer workers than `t`
     const AROUND_T: [usize; 20] = [4, 4, 4, 5, 7, 8, 16, 17, 18, 20, 22, 26, 31, 33, 40, 47, 63, 100, 119, 130];
-    for _ in 0..(if thorough { 700 } else { 130 }) {
+    for _ in 0..(if thorough { 700 } else { 175 }) {
         let n = if rng.chance(3, 4) { *rng.pick(&AROUND_T) } else { gen_order(rng, max_order) };
         let seed = gen_seed(rng);
         emit(format!("rand_tournament am {n} {seed}"));
@@ -203,7 +299,7 @@ pub fn gen(rng: &mut Rng, thorough: bool, emit: &mut dyn FnMut(String)) {
     }
     // (4) out-of-range p for every representation, p = 0 / 1 on larger orders
     for repr in reprs {
-        for p in [-0.1, 1.5, f64::NAN, f64::INFINITY, next_up(1.0), -f64::from_bits(1)] {
+        for p in [-0.1, 1.5, f64::NAN, f64::INFINITY, next_up(1.0), -f64::from_bits(1), f64::NEG_INFINITY, -1.0, 2.0, -f64::NAN, 1e300, -1e-300] {
             emit(er_line(repr, 1 + rng.below(20), p, gen_seed(rng)));
         }
         for p in [0.0, 1.0, -0.0] {
@@ -215,7 +311,7 @@ pub fn gen(rng: &mut Rng, thorough: bool, emit: &mut dyn FnMut(String)) {
         emit(format!("rand_u64 {seed} 64"));
         emit(format!("rand_f64 {seed} 64"));
     }
-    for _ in 0..(if thorough { 300 } else { 70 }) {
+    for _ in 0..(if thorough { 300 } else { 90 }) {
         let seed = gen_seed(rng);
         emit(format!("rand_u64 {seed} {}", 1 + rng.below(200)));
         emit(format!("rand_f64 {seed} {}", if thorough { 2000 } else { 1000 }));
